@@ -165,6 +165,13 @@ Proof.
   destruct (m_segs m) as [|sg [|? ?]]; auto. destruct (sg_text sg); auto.
 Qed.
 
+Lemma fao_vals m s : let m' := snd (fst (fix_ambiguity_owned_m csize m s)) in m_scheme m' = m_scheme m /\ m_ipFuture m' = m_ipFuture m.
+Proof.
+  cbv zeta. unfold fix_ambiguity_owned_m. destruct (match m_abs m with true => _ | false => _ end); [|auto].
+  destruct (alloc false SEG_SIZE s) as [[id|] s1]; [|auto].
+  destruct (alloc false _ s1) as [[b|] s2]; auto.
+Qed.
+
 Lemma n_path_keeps mask o m done s : match n_path csize mask o m done s with
   | (Some (m', _), _, _, _) => keeps m m' | (None, mf, _, _) => keeps m mf end.
 Proof.
@@ -172,13 +179,19 @@ Proof.
   set (relative := negb (is_some (t_val (m_scheme m))) && negb (m_abs m) && negb (m_host_set m)). clearbody relative.
   assert (Tail : forall m1 (done1 : N) owned s1, m_scheme m1 = m_scheme m -> m_ipFuture m1 = m_ipFuture m ->
             match (let '(ok, m2, s2) := remove_dot_segments_m relative owned m1 s1 in
-                   if ok then let '(m3, s3) := fix_empty_trail_m m2 s2 in (Some (m3, done1), m3, done1, s3)
+                   if ok then
+                     let '(ok', m2', s2') := fix_ambiguity_owned_m csize m2 s2 in
+                     if ok' then let '(m3, s3) := fix_empty_trail_m m2' s2' in (Some (m3, done1), m3, done1, s3)
+                     else (@None (muri * N), m2', done1, s2')
                    else (@None (muri * N), m2, done1, s2)) with
             | (Some (m', _), _, _, _) => keeps m m' | (None, mf, _, _) => keeps m mf end).
   { intros m1 done1 owned s1 e1 e2. pose proof (rds_vals relative owned m1 s1) as V. cbv zeta in V.
     destruct (remove_dot_segments_m relative owned m1 s1) as [[[|] m2] s2]; cbn [fst snd] in V.
-    - pose proof (fet_vals m2 s2) as V2. cbv zeta in V2. destruct (fix_empty_trail_m m2 s2) as [m3 s3]. cbn [fst] in V2.
-      destruct V as [a b], V2 as [c d]. apply keeps_same; congruence.
+    - pose proof (fao_vals m2 s2) as Va. cbv zeta in Va.
+      destruct (fix_ambiguity_owned_m csize m2 s2) as [[[|] m2'] s2']; cbn [fst snd] in Va.
+      + pose proof (fet_vals m2' s2') as V2. cbv zeta in V2. destruct (fix_empty_trail_m m2' s2') as [m3 s3]. cbn [fst] in V2.
+        destruct V as [a b], Va as [a' b'], V2 as [c d]. apply keeps_same; congruence.
+      + destruct V as [a b], Va as [a' b']. apply keeps_same; congruence.
     - destruct V as [a b]. apply keeps_same; congruence. }
   destruct o; [apply Tail; reflexivity|].
   destruct (norm_segs_malloc csize [] (m_segs m) s) as [[[|] segs] s1]; [apply Tail; reflexivity|]. apply keeps_same; reflexivity.
